@@ -1,4 +1,5 @@
 import GasolVerif.Models.Cost
+import GasolVerif.Models.CostAcc
 set_option linter.unusedSimpArgs false
 namespace GasolVerif.Cost
 
@@ -72,5 +73,83 @@ theorem costs_append (p : Bool) (A B : List Instr) :
     costs p (A ++ B) = ⟨(costs p A).gas + (costs p B).gas, (costs p A).bytes + (costs p B).bytes,
       (costs p A).len + (costs p B).len⟩ := by
   simp [costs, List.map_append, List.sum_append]
+
+end GasolVerif.Cost
+
+/-! ### the tool's warm/cold accounting against the static price -/
+namespace GasolVerif.Cost
+
+theorem gasOf_extcodecopy (p0 : Bool) (a : Nat) (o : Bool) : gasOf p0 (.ext "EXTCODECOPY" a o) = 2600 := by
+  simp [gasOf]
+
+theorem gasOf_account (p0 : Bool) (n : String) (h : isAccountRead n = true) : gasOf p0 (.env1 n) = 2600 := by
+  simp only [isAccountRead, Bool.or_eq_true, beq_iff_eq] at h
+  rcases h with (h | h) | h <;> subst h <;> simp [gasOf] <;> decide
+
+/-- one instruction never costs more than its static price, and exactly that when it is not a storage/account access -/
+theorem accStep_gas (p0 : Bool) (st : AccSt) (i : Instr) :
+    (accStep p0 st i).gas ≤ st.gas + gasOf p0 i ∧ (isAccess i = false → (accStep p0 st i).gas = st.gas + gasOf p0 i) := by
+  cases i with
+  | sload =>
+    simp only [accStep, isAccess, sloadGas, gasOf]
+    constructor
+    · split <;> omega
+    · intro h; cases h
+  | sstore =>
+    simp only [accStep, isAccess, sstoreGas, gasOf]
+    constructor
+    · split <;> omega
+    · intro h; cases h
+  | env1 n =>
+    simp only [accStep, isAccess]
+    by_cases h : isAccountRead n = true
+    · simp only [h, if_true, accountGas, gasOf_account p0 n h]
+      constructor
+      · split <;> omega
+      · intro h'; cases h'
+    · simp only [h, Bool.false_eq_true, if_false]
+      simp
+  | ext n a o =>
+    simp only [accStep, isAccess]
+    by_cases h : (n == "EXTCODECOPY") = true
+    · have hn : n = "EXTCODECOPY" := by simpa using h
+      subst hn
+      simp only [beq_self_eq_true, if_true, accountGas, gasOf_extcodecopy]
+      constructor
+      · cases o <;> simp <;> split <;> omega
+      · intro h'; cases h'
+    · simp only [h, Bool.false_eq_true, if_false]
+      cases o <;> simp
+  | dup k => simp [accStep, isAccess]
+  | swap k =>
+    simp only [accStep, isAccess]
+    split <;> simp
+  | _ => simp [accStep, isAccess]
+
+theorem foldl_acc_gas (p0 : Bool) (B : List Instr) (st : AccSt) :
+    (B.foldl (accStep p0) st).gas ≤ st.gas + (B.map (gasOf p0)).sum ∧
+    ((∀ i ∈ B, isAccess i = false) → (B.foldl (accStep p0) st).gas = st.gas + (B.map (gasOf p0)).sum) := by
+  induction B generalizing st with
+  | nil => simp
+  | cons i B ih =>
+    simp only [List.foldl_cons, List.map_cons, List.sum_cons]
+    obtain ⟨h1, h2⟩ := accStep_gas p0 st i
+    obtain ⟨g1, g2⟩ := ih (accStep p0 st i)
+    constructor
+    · omega
+    · intro hall
+      have hi := h2 (hall i (by simp))
+      have hr := g2 (fun j hj => hall j (by simp [hj]))
+      omega
+
+/-- **the tool's gas of a block never exceeds the static price** (a warm access is never dearer than a cold one) -/
+theorem gasAcc_le_static (p0 : Bool) (B : List Instr) : gasAcc p0 B ≤ (costs p0 B).gas := by
+  have := (foldl_acc_gas p0 B {}).1
+  simpa [gasAcc, costs] using this
+
+/-- on a block without storage or account accesses the tool's gas is the static price -/
+theorem gasAcc_eq_static (p0 : Bool) (B : List Instr) (h : ∀ i ∈ B, isAccess i = false) : gasAcc p0 B = (costs p0 B).gas := by
+  have := (foldl_acc_gas p0 B {}).2 h
+  simpa [gasAcc, costs] using this
 
 end GasolVerif.Cost
